@@ -81,7 +81,7 @@ class Driver:
         self.idx = {c["name"]: i for i, c in enumerate(cat, 1)}
         self.calls = 0
 
-    def event(self, a, name, p, neg=False, e=None, vin=None, closes=False, rset=None):
+    def event(self, a, name, p, neg=False, e=None, vin=None, closes=False, rset=None, sd_built=None):
         """one call on the real code -> event"""
         np, gc, tf = self.np, self.gc, self.tf
         if rset is None:
@@ -94,7 +94,7 @@ class Driver:
             ev = {"idx": 0, "p14": p14, "ep": ep}
         ev.update({"a": a, "neg": bool(neg), "e": e.toordinal() if e else 0, "in": vec(p), "inhex": hx(*p),
                    "out": vec([0, 0, 0]), "outhex": "", "refhex": "", "vin": [] if vin is None else mat(vin), "vout": [],
-                   "sd": sd7(gc, trans), "closes": bool(closes), "exc": "", "name": name or "random"})
+                   "sd": sd_built if sd_built is not None else sd7(gc, trans), "closes": bool(closes), "exc": "", "name": name or "random"})
         try:
             self.calls += 1
             if a == "C7":
@@ -188,6 +188,16 @@ def traces_c06(drv, rnd, quick):
                 traces.append({"kind": "vcv", "ev": [ev]})
         ev, _ = drv.event("C7", n, pts[-1], vin=None)
         traces.append({"kind": "vcv_absent", "ev": [ev]})
+    # covariance with parameter sets AND uncertainties built by the caller (seven DIFFERENT one-sigma values: the shipped GDA94->GDA2020
+    # uncertainties happen to have sd_rx = sd_rz); the specification is given the numbers the objects were built with
+    for k in range(12 if quick else 200):
+        t, p14, ep = drv.random_set(rnd, False)
+        sds = [round(rnd.uniform(1e-4, 9e-3), 5) for _ in range(3)] + [round(rnd.uniform(1e-4, 9e-3), 6)] + \
+              [round(rnd.uniform(1e-5, 9e-4) * (i + 1), 7) for i in range(3)]
+        t.tf_sd = gc.TransformationSD(*sds)
+        for v in psd_inputs(np, rnd)[k % 3::3]:
+            ev, _ = drv.event("C7", None, rnd.choice(pts[:8] + pts[-1:]), vin=v, rset=(t, p14, ep), sd_built=[fix.enc(x) for x in sds])
+            traces.append({"kind": "vcv_built", "ev": [ev]})
     return traces
 
 
